@@ -101,6 +101,21 @@ instance instCompatLawsRat : CompatLaws Rat where
     refine ⟨(i : Rat), ?_⟩
     rw [ofInt_eq, if_pos]
     grind
+  ofInt_intLimit := by
+    intro i h1 h2
+    have hb : RatCarrier.big = ((179769313486231570000 : Int) : Rat) := by decide
+    have e1 : ((-DType.intLimit : Int) : Rat) ≤ (i : Rat) := Rat.intCast_le_intCast.mpr h1
+    have e2 : (i : Rat) ≤ ((DType.intLimit : Int) : Rat) := Rat.intCast_le_intCast.mpr h2
+    have b1 : ((-179769313486231570000 : Int) : Rat) ≤ ((-DType.intLimit : Int) : Rat) :=
+      Rat.intCast_le_intCast.mpr (by decide)
+    have b2 : ((DType.intLimit : Int) : Rat) ≤ ((179769313486231570000 : Int) : Rat) :=
+      Rat.intCast_le_intCast.mpr (by decide)
+    have b3 : ((-179769313486231570000 : Int) : Rat) = -((179769313486231570000 : Int) : Rat) := by
+      simp [Rat.intCast_neg]
+    refine ⟨(i : Rat), ?_⟩
+    rw [ofInt_eq, if_pos]
+    rw [hb]
+    grind
   div_notNaN := fun _ _ _ _ _ => rfl
   tol_nonneg := by
     intro rr ar x _ _ _ har _
